@@ -168,6 +168,10 @@ func runSLH(rc *sk.RunCtx, focus string) {
 	}
 	w := &slhWorld{focus: focus, stats: map[string]int{}}
 	useAllow := tp.Chance(2, 3)
+	// relayOn: the lighthouse really relays and everybody lists it, and an allow list may deny the whole primary
+	// underlay range except the lighthouse: tunnels to such a node exist through the relay only, while its peers
+	// keep probing it directly from the denied addresses
+	relayOn := tp.Chance(1, 2)
 	mw := buildMesh(rc, meshOpts{minNodes: 3, maxNodes: 5, allowLighthouse: true, forceLH: true, multiAddr: true, allowV1: true, horizon: horizon,
 		extra: func(i int, s *nodeSpec) {
 			// multi-homing
@@ -190,6 +194,10 @@ func runSLH(rc *sk.RunCtx, focus string) {
 					if tp.Chance(1, 3) {
 						al.global["192.168.0.0/16"] = false
 					}
+					if relayOn && i > 0 && tp.Chance(1, 2) {
+						al.global["1.0.0.0/8"] = false
+						al.global["1.0.0.1/32"] = true
+					}
 				}
 				if tp.Chance(1, 2) {
 					al.ranges = map[string]map[string]bool{"10.128.0.0/29": {"0.0.0.0/0": true, "::/0": true, "2.0.0.0/8": tp.Chance(1, 2), "192.168.7.0/24": tp.Chance(1, 2)}}
@@ -210,12 +218,15 @@ func runSLH(rc *sk.RunCtx, focus string) {
 			}
 			deepMerge(s.extra, map[string]any{"lighthouse": lhc, "preferred_ranges": prs,
 				"punchy": map[string]any{"punch": true, "respond": true, "delay": "40ms", "respond_delay": "80ms"}})
-			if i > 0 && tp.Chance(1, 2) {
+			if relayOn && i == 0 {
+				s.relay = true
+			}
+			if i > 0 && (relayOn || tp.Chance(1, 2)) {
 				// the node advertises relays, listed in descending order (the candidate list must come out sorted
 				// and deduplicated whatever the reporting order, also for peers with a single direct address)
 				var rl []any
 				for k := 2; k >= 0; k-- {
-					if k != i && tp.Chance(2, 3) {
+					if k != i && (tp.Chance(2, 3) || (relayOn && k == 0)) {
 						rl = append(rl, overlayAddr(k, 0).Addr().String())
 					}
 				}
@@ -397,7 +408,7 @@ func (w *slhWorld) checkDestination(from *simNode, d *simDatagram) {
 				}
 			}
 			for _, one := range full {
-				if al.allow([]netip.Addr{one}, d.to.Addr()) {
+				if al.allow([]netip.Addr{one}, d.to.Addr().Unmap()) {
 					ok = true
 				}
 			}
@@ -468,21 +479,25 @@ func (w *slhWorld) checkList(nd *simNode, rl *RemoteList, what string, ev string
 	rl.RLock()
 	gotRelays := slices.Clone(rl.relays)
 	vpn := slices.Clone(rl.vpnAddrs)
+	// the cap is kept per reported list (a source reports an IPv4 list and an IPv6 list, ten entries each at most);
+	// counted on the stored lists themselves: an IPv4-mapped entry of the IPv6 list still belongs to that list
+	// (counting by the family of the unmapped address was a false alarm of this oracle)
+	n4s, n6s := map[string]int{}, map[string]int{}
+	for owner, mc := range rl.cache {
+		if mc.v4 != nil {
+			n4s[owner.String()] = len(mc.v4.reported)
+		}
+		if mc.v6 != nil {
+			n6s[owner.String()] = len(mc.v6.reported)
+		}
+	}
 	rl.RUnlock()
 	cm := rl.CopyCache()
 	blocked := rl.CopyBlockedRemotes()
 	set := map[netip.AddrPort]bool{}
 	relSet := map[netip.Addr]bool{}
 	for owner, c := range *cm {
-		// the cap is kept per address family (ten IPv4 and ten IPv6 per source)
-		n4, n6 := 0, 0
-		for _, a := range c.Reported {
-			if a.Addr().Is4() {
-				n4++
-			} else {
-				n6++
-			}
-		}
+		n4, n6 := n4s[owner], n6s[owner]
 		if n4 > MaxRemotes || n6 > MaxRemotes {
 			w.fail("C36", "too-many-reported", "node %d after %s: %s holds %d IPv4 and %d IPv6 reported addresses from source %s (limit %d each)", nd.idx, ev, what, n4, n6, owner, MaxRemotes)
 			return false
@@ -739,7 +754,7 @@ func fakeAddrs(tp *sk.Tape, target *simNode) ([]*V4AddrPort, []*V6AddrPort, []ne
 	family := tp.Choose(4)
 	for i := 0; i < k; i++ {
 		var a netip.AddrPort
-		kind := tp.Choose(5)
+		kind := tp.Choose(6)
 		switch family {
 		case 1:
 			kind = 3
@@ -747,6 +762,9 @@ func fakeAddrs(tp *sk.Tape, target *simNode) ([]*V4AddrPort, []*V6AddrPort, []ne
 			kind = 4
 		}
 		switch kind {
+		case 5: // an IPv4 address dressed as IPv4-mapped IPv6 in the v6 list: the same filters must see through it
+			v4 := [][4]byte{{10, 128, 0, byte(50 + tp.Choose(100))}, {2, 0, 0, byte(200 + tp.Choose(50))}, {192, 168, 7, byte(200 + tp.Choose(50))}}[tp.Choose(3)]
+			a = netip.AddrPortFrom(netip.AddrFrom16([16]byte{0, 0, 0, 0, 0, 0, 0, 0, 0, 0, 0xff, 0xff, v4[0], v4[1], v4[2], v4[3]}), 4242)
 		case 0: // inside the target's overlay range
 			a = netip.AddrPortFrom(netip.AddrFrom4([4]byte{10, 128, 0, byte(50 + tp.Choose(100))}), 4242)
 		case 1:
